@@ -10,7 +10,7 @@
 (* Python only transports values and applies primitives; every structural  *)
 (* decision is taken here.                                                 *)
 (***************************************************************************)
-EXTENDS Bip38, Json, IOUtils, TLC
+EXTENDS Bip38Env, Json, IOUtils
 
 Recs == ndJsonDeserialize(IOEnv.IN_FILE)
 
@@ -159,12 +159,30 @@ Run(S, evs, i, devs) ==
                     ELSE [v |-> IF e.explicit THEN "explicit-entropy-not-honoured" ELSE "entropy-reused",
                           dev |-> "", exp |-> <<>>, need |-> <<>>, at |-> i, devs |-> devs]
 
+(* ---- the environment of generation requests (Bip38Env) ---- *)
+\* (G) the behaviours to replay, each with the model's answer whether a generator drawing from the ambient state is exposed
+\* kind of the first request on which the ambient-drawing generator is caught ("" if never)
+ExposedKind(b) == LET evs == EnvEvents(EnvInit, b, 1, "ambient")
+                      k   == FirstBlame(EnvJudge(evs))
+                  IN IF k = 0 THEN "" ELSE evs[k].op
+JEnvGen(r) == [v |-> "ok", dev |-> "", exp |-> <<>>, need |-> <<>>, at |-> 0, devs |-> <<>>,
+               behs |-> {[b |-> b, exposes |-> Exposes(b), kind |-> ExposedKind(b)] : b \in Behaviours(r.L)}]
+\* (V) one replayed behaviour: the recorded requests judged by the ledgers of entropy and of outputs
+JEnv(r) ==
+    LET evs == [i \in 1..Len(r.events) |-> [op |-> r.events[i].op, explicit |-> r.events[i].explicit, arg |-> Event(r.events[i]).arg,
+                                            out |-> Drawn(r.events[i]), outs |-> r.events[i].outs]]
+        fs  == EnvJudge(evs)
+        k   == FirstBlame(fs)
+    IN IF k = 0 THEN Good ELSE [v |-> fs[k], dev |-> "", exp |-> <<>>, need |-> <<>>, at |-> k, devs |-> <<>>]
+
 Judge(r) ==
     CASE r.k = "enc"   -> JEnc(r)
       [] r.k = "dec"   -> JDec(r)
       [] r.k = "inter" -> JInter(r)
       [] r.k = "new"   -> JNew(r)
       [] r.k = "rt"    -> JRoundTrip(r)
+      [] r.k = "envgen" -> JEnvGen(r)
+      [] r.k = "env"   -> JEnv(r)
       [] r.k = "trace" -> Run({LedgerInit}, r.events, 1, <<>>)
       [] r.k = "vector" -> JVector(r)
       [] OTHER -> Verdict("unknown-record-kind", "", <<>>)
